@@ -83,7 +83,7 @@ pub trait Observer {
     }
     /// does the oracle need pre/post snapshots for this operation? (performance only: when
     /// false, `pre`/`post` in StepCtx are stale and must not be read)
-    fn needs_snap(&self, _actor: Actor, _op: &Op) -> bool {
+    fn needs_snap(&self, _actor: Actor, _op: &Op, _screen: &Screen) -> bool {
         true
     }
     /// called before an operation is applied (lets an oracle copy the pre-state screen)
@@ -171,7 +171,7 @@ pub fn run_q_inject(
     macro_rules! apply_one {
         ($actor:expr, $op:expr) => {{
             let op: &Op = $op;
-            let need = obs.needs_snap($actor, op);
+            let need = obs.needs_snap($actor, op, &screen);
             if need && !cur_valid {
                 cur = Snapshot::take(&screen);
             }
@@ -288,7 +288,7 @@ pub fn run_p(trace: &Trace, obs: &mut dyn Observer) -> Result<(RunStats, Arc<Mut
                     Violation::new(&trace.prop, "C01/poisoned", "listener mutex poisoned after feed", idx)
                 })?;
                 let r;
-                if obs.needs_snap(Actor::Feeder, &nop) {
+                if obs.needs_snap(Actor::Feeder, &nop, &g) {
                     let post = Snapshot::take(&g);
                     r = obs.step(&StepCtx {
                         idx,
@@ -326,7 +326,7 @@ pub fn run_p(trace: &Trace, obs: &mut dyn Observer) -> Result<(RunStats, Arc<Mut
                 let mut g = screen.lock().map_err(|_| {
                     Violation::new(&trace.prop, "C01/poisoned", "listener mutex poisoned", idx)
                 })?;
-                let need = obs.needs_snap(actor_of(other), &op);
+                let need = obs.needs_snap(actor_of(other), &op, &g);
                 if need {
                     // wiring P oracles that need snapshots need them at every step
                     cur = Snapshot::take(&g);
